@@ -52,6 +52,15 @@ def Kind.tls : Kind → Bool
 /-- what the (fake or real) nonblocking socket raises when it has nothing to give: EAGAIN, or SSLWantReadError -/
 def wbCode (k : Kind) : Nat := if k.tls then Gen.Tcp.wantRead else Gen.Tcp.eagain
 
+/-- does the wire-log path of `send` / `receive` of this class ask the socket for the peer address? (regenerated) -/
+def needsPeerSend : Kind → Bool
+  | .client => Gen.Tcp.wlPeerSend.getD 0 true | .clientTls => Gen.Tcp.wlPeerSend.getD 1 true
+  | .remoter => Gen.Tcp.wlPeerSend.getD 2 true | .remoterTls => Gen.Tcp.wlPeerSend.getD 3 true
+
+def needsPeerRecv : Kind → Bool
+  | .client => Gen.Tcp.wlPeerRecv.getD 0 true | .clientTls => Gen.Tcp.wlPeerRecv.getD 1 true
+  | .remoter => Gen.Tcp.wlPeerRecv.getD 2 true | .remoterTls => Gen.Tcp.wlPeerRecv.getD 3 true
+
 /-- kernel response to one `send(data)`: accepts up to `n` bytes, or raises fault `code` -/
 inductive SResp where
   | acc (n : Nat) | fault (code : Nat)
@@ -77,7 +86,13 @@ structure Conn where
   kdel : Bytes := []
   sends : List SResp := []
   recvs : List RResp := []
+  /-- the peer has reset the connection: bytes already queued are still delivered, but `getpeername()` raises ENOTCONN -/
+  peerGone : Bool := false
 deriving Repr
+
+/-- the wire-log call `wl.writeTx/Rx(data, who=self.cs.getpeername())` raises on a reset connection -/
+def Conn.wlFailsTx (c : Conn) : Bool := c.wl && needsPeerSend c.kind && c.peerGone
+def Conn.wlFailsRx (c : Conn) : Bool := c.wl && needsPeerRecv c.kind && c.peerGone
 
 /-- `Client.serviceSends/serviceReceives` additionally test `.connected`; the remoters do not -/
 def Conn.guard (c : Conn) : Bool :=
@@ -100,6 +115,10 @@ def send (c : Conn) : Conn × Except Exn Nat :=
   | .fault code :: rest => sendFault { c with sends := rest } code
   | .acc n :: rest =>
     let k := min n c.txbs.length
+    if 0 < k ∧ c.wlFailsTx = true then
+      -- the kernel took the bytes, then the wire-log call raised: `del txbs[:count]` never happens
+      ({ c with sends := rest, kacc := c.kacc ++ c.txbs.take k }, .error .osError)
+    else
     ({ c with sends := rest, kacc := c.kacc ++ c.txbs.take k,
               wireTx := if c.wl then c.wireTx ++ c.txbs.take k else c.wireTx }, .ok k)
 
@@ -134,6 +153,9 @@ def recvLoop (c : Conn) : List RResp → Conn × Option Exn
       | .fault code => recvFault { c with recvs := rest } code
       | .data d =>
         if d = [] then ({ c with recvs := rest, cutoff := true }, none)
+        else if c.wlFailsRx then
+          -- the bytes were read from the kernel, then the wire-log call raised: they never reach rxbs
+          ({ c with recvs := rest, kdel := c.kdel ++ d }, some .osError)
         else recvLoop { c with rxbs := c.rxbs ++ d, kdel := c.kdel ++ d,
                                wireRx := if c.wl then c.wireRx ++ d else c.wireRx } rest
 
@@ -141,7 +163,7 @@ def serviceReceives (c : Conn) : Conn × Option Exn :=
   if c.guard then recvLoop c c.recvs else (c, none)
 
 inductive Op where
-  | tx (d : Bytes) | ss | sr | svc
+  | tx (d : Bytes) | ss | sr | svc | rst
 deriving Repr
 
 /-- sequencing with exception propagation -/
@@ -155,6 +177,7 @@ def step (c : Conn) : Op → Conn × Option Exn
   | .tx d => ({ c with txbs := c.txbs ++ d }, none)
   | .ss => serviceSends c
   | .sr => serviceReceives c
+  | .rst => ({ c with peerGone := true }, none)
   | .svc =>
     match c.kind with
     | .client | .clientTls => andThen (serviceSends c) serviceReceives
